@@ -184,6 +184,14 @@ def desugar(loc, relfile, fn_paths, rules, _pass=0, optional=()):
                     records.append({"fn": fp, "rule": "D30 for p in E { B }  =>  let s = E; let mut n = 0; while n < s.len() { let p = s[n]; n += 1; B }   (E is evaluated once to an indexable sequence of copyable items; Verus `for` has no `continue`)",
                                     "original": src[v["call"][0]:v["call"][1]], "rewritten": new})
                     continue
+                if v["rule"] == "D45":
+                    pat = src[v["pat"][0]:v["pat"][1]]
+                    recv = src[v["recv"][0]:v["recv"][1]]
+                    new = (f"while {recv}.len() > 0 {{ let {pat} = {recv}.remove(0);")
+                    rewrites.append((v["call"][0], v["call"][1], new))
+                    records.append({"fn": fp, "rule": "D45 for p in V.drain(..) { B }  =>  while V.len() > 0 { let p = V.remove(0); B }   (same items in the same order; when B leaves early the rest stays in V instead of being dropped - V is not used afterwards)",
+                                    "original": src[v["call"][0]:v["call"][1]], "rewritten": new})
+                    continue
                 if v["rule"] == "D43":
                     pat = src[v["pat"][0]:v["pat"][1]]
                     lo = src[v["lo"][0]:v["lo"][1]]
